@@ -652,7 +652,7 @@ class GeneratedBoxes(Engine):
     name = "generated_boxes"
 
     def budget(self, tier):
-        return 4000 if tier == "quick" else 300_000
+        return 4000 if tier == "quick" else 160_000
 
     def strategy(self, tier):
         from .. import app, isowrite
@@ -1137,7 +1137,7 @@ class EditSequences(Engine):
     name = "edit_sequences"
 
     def budget(self, tier):
-        return 2800 if tier == "quick" else 200_000
+        return 2800 if tier == "quick" else 100_000
 
     def strategy(self, tier):
         return _edit_strategy()
